@@ -89,8 +89,10 @@ def gen_cases(rnd, quick):
     cases = []
     kinds = [0, 1, 2, 0xFFFFFFFF]
     seqs = [0, 1, 0x7FFFFFFF, 0xFFFFFFFD, 0xFFFFFFFE, 0xFFFFFFFF]
-    sizes = [0, 1, 2, 255, 256, 257, 0x100, 0x10000, 0xFFFFFFFF]
-    counts = [0, 1, 2, 16383, 16384, 16385, 0x10000, 0xFFFFFFFF]
+    kinds += [0x100, 0x10000, 0x10001, 0x01000000, 0x80000001]        # low byte / half legal, high bits set
+    # incl. words whose low byte / low half alone would be legal (a check on a truncated value must not pass)
+    sizes = [0, 1, 2, 255, 256, 257, 0x100, 0x10000, 0xFFFFFFFF, 0x101, 0x10001, 0x1000040, 0xFFFFFF01, 0x80000100]
+    counts = [0, 1, 2, 16383, 16384, 16385, 0x10000, 0xFFFFFFFF, 0x10001, 0x14000, 0x10040, 0xFFFF0001, 0x80000001, 0x4001]
     exts = EXT + [0, 0x44444445, 0xAAAAAAAB, 0x00000000, 0x44444440, 0xEEEEEEEE]
     ints = INT + [0, 0x11111110, 0x11111113, 0x33333333]
     boots = BOOT + [0, 0xABCD1235, 0x89CD1010, 0xEFEF7AB4]
@@ -122,6 +124,13 @@ def gen_cases(rnd, quick):
     for _ in range(nrand // 3):
         w = [rnd.choice([0, 1]), rnd.getrandbits(32), rnd.randint(1, 256), rnd.randint(1, 16384), rnd.choice(EXT), rnd.choice(INT), rnd.choice(BOOT)]
         addP(w, bytes(rnd.getrandbits(8) for _ in range(rnd.choice([0, 0, 1, 4, 28]))))
+    # a legal header with high bits added to one numeric field (a range check on a truncated value would accept it)
+    for _ in range(nrand // 4):
+        w = [rnd.choice([0, 1]), rnd.getrandbits(32), rnd.randint(1, 256), rnd.randint(1, 16384), rnd.choice(EXT), rnd.choice(INT), rnd.choice(BOOT)]
+        f = rnd.choice([0, 2, 3])
+        w[f] |= rnd.randint(1, 0xFFFF) << rnd.choice([8, 16, 16, 24]) if f != 3 else rnd.randint(1, 0xFFFF) << 16
+        w[f] &= 0xFFFFFFFF
+        addP(w)
     for ln in (0, 1, 4, 27):
         cases.append("P " + (bytes(rnd.getrandbits(8) for _ in range(ln)).hex() or "-"))
     # torn status words: every pattern between old and old&new for every ordered pair of codes of each field
